@@ -16,6 +16,10 @@ def gen(ctx, per):
             cs += got
         if per >= 4:
             cs += runs.directed(ctx, solver, per <= 4)
+    # always in the stream: the history of the open known finding (periodic VI with the default clear_value_history_on_convergence,
+    # a call that converges, then another call) - so the finding is re-established, or found repaired, on every run
+    cs += runs.generate(ctx, "pvi", 1, ks=[8, 2], clear=True, eps=F(2 ** 12), family="det", max_tries=60,
+                        accept=lambda c, r: r[0]["converged"])
     return cs
 
 
